@@ -21,14 +21,20 @@ def dg(b):
     return [d["cmd_rc"], d["seq"], d["args"][0] if d["args"] else -1]
 
 
+def dgh(b):
+    """(rc, seq, src) and a digest of the whole datagram"""
+    return dg(b) + [hashlib.sha1(bytes(b)).hexdigest()[:10]]
+
+
 def make_policy(p):
     if p["kind"] == "raw":
         return scpsim.RawScript(p["events"], pad=p.get("pad", 0), pad_step=p.get("pad_step", 1000))
-    return scpsim.FaultSim(p["plan"], exact=p.get("exact", ()), max_selects=p.get("max_selects", 20000))
+    return scpsim.FaultSim(p["plan"], exact=p.get("exact", ()), max_selects=p.get("max_selects", 20000),
+                           late=p.get("late"))
 
 
-def call_send_scp(conn, f, op):
-    return conn.send_scp(256, f["x"], f["y"], f["p"], f["cmd"], f["arg1"], f["arg2"], f["arg3"],
+def call_send_scp(conn, bs, f, op):
+    return conn.send_scp(bs, f["x"], f["y"], f["p"], f["cmd"], f["arg1"], f["arg2"], f["arg3"],
                          f["data"], expected_args=op["nargs"], timeout=op["extra"])
 
 
@@ -43,9 +49,9 @@ def canon_log(net, lo):
             t = e[1]
             out.append(["select", int(t) if t == int(t) else repr(t)])
         elif e[0] == "recv":
-            out.append(["recv"] + dg(e[1]))
+            out.append(["recv"] + dgh(e[1]))
         elif e[0] == "cb":
-            out.append(["cb", e[1]] + dg(e[2]))
+            out.append(["cb", e[1]] + dgh(e[2]))
     return out
 
 
@@ -55,6 +61,7 @@ def run_case(c):
         # a loop that never ends is normally caught by the script running out of selects) is extended
         signal.alarm(600)
     net = scpsim.Net(make_policy(c["policy"]))
+    net.buffer_size = bs = c.get("buffer_size", 256)
     restore = net.install(scp_connection)
     try:
         conn = SCPConnection("127.0.0.1", n_tries=c["n_tries"], timeout=c["timeout"])
@@ -78,7 +85,7 @@ def run_case(c):
                             f = scpsim.cmd_fields(cid)
                             yield scpcall(f["x"], f["y"], f["p"], f["cmd"], f["arg1"], f["arg2"], f["arg3"],
                                           f["data"], cb, extra)
-                    conn.send_scp_burst(256, op["window"], calls())
+                    conn.send_scp_burst(bs, op["window"], calls())
                 else:
                     f = scpsim.cmd_fields(op["id"])
                     # send_scp's callback is internal (it parses the reply with SCPPacket.from_bytestring and
@@ -92,7 +99,7 @@ def run_case(c):
                             return real_packet.from_bytestring(data, n_args=n_args)
                     scp_connection.SCPPacket = ObservedSCPPacket
                     try:
-                        p = call_send_scp(conn, f, op)
+                        p = call_send_scp(conn, bs, f, op)
                     finally:
                         scp_connection.SCPPacket = real_packet
                     args = [p.arg1, p.arg2, p.arg3][:op["nargs"]]
